@@ -19,7 +19,13 @@ import (
 
 var byteAlphabet = []byte{0x00, 0x01, 0x02, 0x04, 0x7f, 0x80, 0xff}
 
-var mutValues = []uint32{0, 1, 0x7fffffff, 0x80000000, 0xffffffff, 4096, 4097, 10 << 20, 10<<20 + 1}
+// order: the values whose handling is cheap in any decoder first; the last
+// five make count-driven loops long. Mut groups are enumerated value-major
+// (all offsets with value 0, then all offsets with value 1, ...), one value
+// per chunk, so the cheap blocks of every group run before any slow block.
+var mutValues = []uint32{0, 1, 4096, 4097, 10 << 20, 10<<20 + 1, 0x80000000, 0xffffffff, 0x7fffffff}
+
+const mutCheap = 4 // number of leading cheap values
 
 var sigAlphabet = []string{"i", "s", "m", "v", "[", "]", "{", "}", "(", ")", "<", ">", ",", "A", "b", "1"}
 
@@ -39,6 +45,7 @@ type group struct {
 	chunk     int
 	priority  int
 	abandoned atomic.Bool
+	slow      atomic.Bool // produced a failure or a case slower than 300 ms: its remaining chunks run last
 }
 
 func (g *group) name() string {
@@ -197,7 +204,7 @@ func buildGroups(ts []*target, tier string) []*group {
 		}
 		if t.binary && !t.noByte {
 			k := len(byteAlphabet)
-			add(&group{t: t, kind: "bytes", label: fmt.Sprintf("L%d", L), n: wordsCount(L, k), priority: 2,
+			add(&group{t: t, kind: "bytes", label: fmt.Sprintf("L%d", L), n: wordsCount(L, k), priority: 3,
 				input: func(i int) []byte {
 					w := wordAt(i, L, k)
 					b := make([]byte, len(w))
@@ -211,12 +218,12 @@ func buildGroups(ts []*target, tier string) []*group {
 			it := it
 			if len(it.data) >= 4 && t.binary {
 				offs := len(it.data) - 3
-				add(&group{t: t, kind: "mut1", label: it.label, n: offs * len(mutValues), priority: 3,
+				add(&group{t: t, kind: "mut1", label: it.label, n: offs * len(mutValues), priority: 2, chunk: offs,
 					input: func(i int) []byte {
-						return mutate(it.data, i/len(mutValues), mutValues[i%len(mutValues)])
+						return mutate(it.data, i%offs, mutValues[i/offs])
 					}})
 			}
-			add(&group{t: t, kind: "cut", label: it.label, n: len(it.data), priority: 3,
+			add(&group{t: t, kind: "cut", label: it.label, n: len(it.data), priority: 2,
 				input: func(i int) []byte { return it.data[:i] }})
 		}
 		if tier == "thorough" && t.binary {
